@@ -132,6 +132,157 @@ private def outTag : Out → String
   | .int _ => "out-int" | .real _ => "out-real" | .num .. => "out-num" | .nat _ => "out-nat"
   | .err => "out-err" | .other => "out-other"
 
+/-! ### literal sequences: the whole operand list (count, order, values) -/
+
+inductive Item where
+  | num (neg : Bool) (re im : Nat)
+  | nat (n : Nat)
+  | other
+  deriving Repr, DecidableEq, BEq
+
+inductive SeqOut where
+  | items (l : List Item)
+  | err
+  | other
+  deriving Repr, BEq
+
+def decodeItem : Sexp → Option Item
+  | .list [.atom "num", .atom re, .atom im] => do some (.num false (← parseHexBits re) (← parseHexBits im))
+  | .list [.atom "neg", .list [.atom "num", .atom re, .atom im]] => do
+    some (.num true (← parseHexBits re) (← parseHexBits im))
+  | .list [.atom "nat", .atom n] => n.toNat?.map Item.nat
+  | .list [.atom "other"] => some .other
+  | _ => none
+
+def decodeSeqOut : Sexp → Option SeqOut
+  | .list (.atom "items" :: xs) => (xs.mapM decodeItem).map SeqOut.items
+  | .list [.atom "err"] => some .err
+  | .list [.atom "other"] => some .other
+  | _ => none
+
+def isNumericTok (t : Token) : Bool :=
+  match t with | .integer _ | .float _ | .operator _ => true | _ => false
+
+def isExprKind (kind : String) : Bool :=
+  kind == "gateparams" || kind == "matrixrow" || kind == "defwaveform" || kind == "wfargs"
+
+/-- `many0(parse_call_argument)` on a token list made of numeric literals and signs: repeated
+`parse_call_immediate`; anything left over makes the program fail.  `none` = not predicted (identifiers). -/
+def callArgs : Nat → List Token → List Item → Option SeqOut
+  | 0, _, _ => none
+  | fuel + 1, ts, acc =>
+    match ts with
+    | [] => some (.items acc.reverse)
+    | _ =>
+      if !ts.all isNumericTok then
+        (match ts with
+         | .integer _ :: _ | .float _ :: _ | .operator _ :: _ =>
+           -- an `i` suffix is an identifier token: allow it, refuse other identifiers
+           if ts.all (fun t => isNumericTok t || t == .identifier ['i']) then
+             (match parseCallImmediate ts with
+              | .ok z rest => if rest.length < ts.length then callArgs fuel rest (.num false z.re z.im :: acc) else none
+              | .err => some .err)
+           else none
+         | _ => none)
+      else
+        match parseCallImmediate ts with
+        | .ok z rest => if rest.length < ts.length then callArgs fuel rest (.num false z.re z.im :: acc) else none
+        | .err => some .err
+
+/-- the model's prediction of the operand list for a sequence of spellings in a multi-operand position -/
+def predictSeq (kind : String) (items : List String) : Option SeqOut :=
+  if kind == "call" then
+    match QV.Lex.lex (" ".intercalate items).toList with
+    | none => some .err
+    | some ts =>
+      -- an identifier `i` directly after a number is the imaginary suffix; a free-standing `i` is an
+      -- Identifier argument (not predicted)
+      callArgs (ts.length + 1) ts []
+  else if isExprKind kind then
+    -- comma-separated expressions: each item is lexed and parsed on its own
+    let chunk (x : String) : Option (Option Item) :=      -- none = not predicted, some none = error
+      match QV.Lex.lex x.toList with
+      | none => some none
+      | some ts =>
+        match parseSignedNumber ts with
+        | .ok (neg, z) [] => some (some (.num neg z.re z.im))
+        | .ok _ _ => none
+        | .err => if !ts.isEmpty && ts.all isNumericTok then some none else none
+    let cs := items.map chunk
+    if cs.any (· == some none) && cs.all (fun c => c.isSome) then some .err
+    else if cs.all (fun c => match c with | some (some _) => true | _ => false) then
+      some (.items (cs.filterMap fun c => c.join))
+    else none
+  else
+    -- u64 lists
+    let chunk (x : String) : Option (Option Item) :=
+      match QV.Lex.lex x.toList with
+      | none => some none
+      | some [.integer n] => some (some (.nat n))
+      | some ts => if !ts.isEmpty && ts.all isNumericTok then some none else none
+    let cs := items.map chunk
+    if cs.any (· == some none) && cs.all (fun c => c.isSome) then some .err
+    else if cs.all (fun c => match c with | some (some _) => true | _ => false) then
+      some (.items (cs.filterMap fun c => c.join))
+    else none
+
+/-- value of one literal as an expression / CALL immediate: `(re, im)` bits before any sign, `none` when the
+literal has no finite / 64-bit value (then the parse must fail) -/
+def litBits (sg : Spec.Signed) : Option Nat :=
+  match sg.lit.intValue with
+  | some v => if v < QV.Lex.two64 then some (QV.DecF64.ofNat v) else none
+  | none => match sg.lit.realValue with
+    | some (m, e) => QV.DecF64.roundDec m e
+    | none => none
+
+/-- the CALL rule of `expectSeq` (see there) -/
+partial def expectCall : List Spec.Signed → List Item → Option SeqOut
+  | [], acc => some (.items acc.reverse)
+  | a :: rest, acc =>
+    if a.plus then some .err else
+    match litBits a with
+    | none => some .err
+    | some ba =>
+      let va := if a.neg then zeroMinus ba else ba
+      let (re, im) : Nat × Nat := if a.imag then (0, va) else (va, 0)
+      match rest with
+      | b :: rest' =>
+        (match litBits b with
+         | none => some .err
+         | some bb =>
+           if (b.neg || b.plus) && isZeroBits im && b.imag && !isZeroBits bb then
+             expectCall rest' (.num false re (if b.neg then QV.DecF64.negBits bb else bb) :: acc)
+           else expectCall rest (.num false re im :: acc))
+      | [] => some (.items ((.num false re im :: acc).reverse))
+
+/-- **specification of the operand list**, computed from the spellings alone (`Spec.classifySigned`):
+`none` = some item is not a literal (no claim); `some .err` = the text must be rejected;
+`some (.items l)` = exactly these operands, in this order — no literal may vanish, merge or move.
+CALL immediates follow the rule of /repo commit 9ad4430: a number whose imaginary part is zero, directly
+followed by an explicitly signed NON-ZERO imaginary literal, is one complex operand; every other literal
+is an operand of its own; a `+` sign is accepted only on such a merged imaginary part. -/
+def expectSeq (kind : String) (items : List String) : Option SeqOut :=
+  match items.mapM (fun x => Spec.classifySigned x.toList) with
+  | none => none
+  | some sgs =>
+    if kind == "call" then
+      expectCall sgs []
+    else if isExprKind kind then
+      if sgs.any (·.plus) then some .err
+      else
+        match sgs.mapM (fun sg => (litBits sg).map fun b => Item.num sg.neg (if sg.imag then 0 else b) (if sg.imag then b else 0)) with
+        | some l => some (.items l)
+        | none => some .err
+    else
+      if sgs.any (·.imag) then none      -- `1i` in a u64 list is a number and a name: no claim
+      else
+        match sgs.mapM (fun sg => if sg.neg || sg.plus then none else
+            match sg.lit.intValue with
+            | some v => if v < QV.Lex.two64 then some (Item.nat v) else none
+            | none => none) with
+        | some l => some (.items l)
+        | none => some .err
+
 def handle (inp out : Sexp) : CaseResult :=
   match inp with
   | .list [.atom "lex", .str t] =>
@@ -178,6 +329,34 @@ def handle (inp out : Sexp) : CaseResult :=
                  if sp.contains '_' then "sep" else "nosep"] ++
                 (match sg with | some s => litTags s | none => ["not-a-literal"]),
         detail := s!"spelling={repr spelling} kind={kind} model={repr pred} impl={repr o} spec-literal={repr sg}" }
+  | .list (.atom "seq" :: .atom kind :: itemsS) =>
+    match itemsS.mapM Sexp.asStr? with
+    | none => .bad s!"undecodable input {inp}"
+    | some items =>
+      if QV.LexWire.isCrash out then
+        { agree := false, specOk := false, nontrivial := true, tags := ["seq", s!"seq-{kind}", "crash"],
+          detail := s!"the parser panicked: items={items} impl={out}" }
+      else
+      match out with
+      | .list (.atom "mismatch" :: _) =>
+        { agree := false, specOk := false, nontrivial := true, tags := ["seq", s!"seq-{kind}", "entry-point-mismatch"],
+          detail := s!"entry points disagree: items={items} {out}" }
+      | _ =>
+      match decodeSeqOut out with
+      | none => .bad s!"undecodable output {out}"
+      | some o =>
+        let pred := predictSeq kind items
+        let exp := expectSeq kind items
+        let specOk := match exp with
+          | none => true
+          | some e => o == .err || o == e        -- count, order and every value
+        { agree := (match pred with | some p => p == o | none => true), specOk := specOk,
+          nontrivial := exp.isSome,
+          tags := ["seq", s!"seq-{kind}", s!"seq-len{items.length}",
+                   (match o with | .items l => s!"out-items{l.length}" | .err => "out-err" | .other => "out-other"),
+                   if pred.isNone then "unpredicted" else "predicted",
+                   if exp.isNone then "not-all-literals" else "all-literals"],
+          detail := s!"kind={kind} items={items} model={repr pred} spec={repr exp} impl={repr o}" }
   | _ => .bad s!"undecodable input {inp}"
 
 end QV.C05
